@@ -106,6 +106,8 @@ pub struct MinerCast {
     /// creation deposits locked by the constructors (KF-1 bookkeeping)
     pub dep_m: TokenAmount,
     pub dep_bm: TokenAmount,
+    /// bystander miners (owner = worker = `c`): active miners that behave by default
+    pub extra: Vec<ActorID>,
 }
 
 /// Genesis + accounts + ballast miner (with a large locked reward) + the subject miner.
@@ -147,7 +149,7 @@ pub fn setup_with(vm: &Vm, ballast: bool, poor_margin: Option<TokenAmount>) -> M
     let m = create_miner(vm, o, w, post_proof(vm), &value).unwrap_or_else(|r| panic!("SETUP-FAILED create miner: {}", r.tree()));
     let dep_m: TokenAmount = vm.state_of::<MinerState>(m).unwrap().locked_funds;
     vm.bump_nonce.set(false);
-    MinerCast { o, w, c, z, m, bm, bo, dep_m, dep_bm }
+    MinerCast { o, w, c, z, m, bm, bo, dep_m, dep_bm, extra: vec![] }
 }
 
 /// Implicit block reward message.
